@@ -954,7 +954,8 @@ def oracle_case(ctx, case_seed, v2, sep, v1, existing):
     try:
         w = W.id3v2_walk(raw)
     except W.Bad as e:
-        viol("saved v2.%d tag is not walkable with %s frame sizes: %s" % (v2, "plain 32-bit" if v2 == 3 else "syncsafe", re.sub(r"\d+", "N", str(e))[:80]), "sizes")
+        data["detail"] = str(e)[:200]
+        viol("saved v2.%d tag is not walkable with %s frame sizes" % (v2, "plain 32-bit" if v2 == 3 else "syncsafe"), "sizes")
         return len(ctx.violations) - before
     if w["version"] != v2 or raw[4] != 0:
         viol("saved tag declares version 2.%d.%d, asked for 2.%d" % (w["version"], raw[4], v2), "version-byte")
@@ -965,20 +966,33 @@ def oracle_case(ctx, case_seed, v2, sep, v1, existing):
     try:
         dec = tuple(dec_frame(i, v2, p) for i, fl, p in w["frames"])
     except W.Bad as e:
-        viol("saved v2.%d frame does not decode: %s" % (v2, re.sub(r"\d+", "N", str(e))[:80]), "frame-decode")
+        data["detail"] = str(e)[:200]
+        viol("saved v2.%d frame does not decode under the version's layout" % v2, "frame-decode")
         return len(ctx.violations) - before
     if v2 == 3 and any(e not in (0, 1) for fr in dec for e in encs_of(fr)):
         viol("v2.3 tag contains a text encoding other than Latin-1 / UTF-16", "encoding")
     check_level(ctx, viol, dec, meta, v2, sep)
-    # reload gives the frames that were written
+    # reload gives the frames that were written (the property claims it for v2.3; reloading v2.4 is C12/C01's subject and goes
+    # through the determine_bpi heuristic, which can misread a v2.4 tag whose CHAP sub-frames happen to be aligned with the
+    # plain-int reading of a size field -- recorded by C12 as a by-design heuristic)
     try:
+        if v2 == 4:
+            raise StopIteration
         r = I.ID3(io.BytesIO(raw), v2_version=v2, load_v1=False)
         got = norm(canon(r))
         want = norm(ref_saved(mem_c, v2, sep))
+        if ctx.use_model:
+            mod = model_tag(ctx, "c13_saved", "3", "-" if sep is None else p_text(sep), p_tag(mem_c))
+            ctx.corr_cases += 1
+            ctx.count("corr:saved23-vs-reload")
+            if isinstance(mod, str) or norm(mod) != got:
+                _dis(ctx, "c13.saved23", "frames reloaded from a v2.3 save differ from the model's conv_saved23 (sep=%r)" % (sep,), dict(data))
         if got != want:
             a, b = set(got), set(want)
             viol("reloading the saved v2.%d tag does not give the frames that were written" % v2, "reload")
             ctx.notes.setdefault("reload_diff", repr((sorted(a - b, key=repr)[:2], sorted(b - a, key=repr)[:2]))[:600])
+    except StopIteration:
+        pass
     except Exception as e:
         viol("reloading the saved v2.%d tag failed: %s" % (v2, type(e).__name__), "reload-failed")
     # ID3v1
